@@ -86,6 +86,9 @@ CHECKS = {
  "C09": dict(engine=B, technique="stateless preemption-bounded exploration of fabric deliveries into a real active object's queue whose consumer is parked in a gated handler; reference deque replay",
    text="An active object subscribed fifo / lifo / default / both ways (before or after start_at) has 0-2 pending events while its consumer waits inside a gated handler; the bare fabric or another active object publishes 1-2 events while a poster posts one more; every schedule with <= 1 (2 for some, thorough) preemptions. Oracle: each delivery uses the front (lifo) or the back (fifo) of the real deque, and both the pending queue and the dispatch order after the gate opens equal the replay of the same history as post_lifo/post_fifo calls on a reference deque.",
    note="Front = the end the consumer pops from.", ref="6/C09"),
+ "C13": dict(engine=B, technique="explicit-state BFS over start/stop/clear/subscribe/publish/active-object sequences on the real fabric under the controlled scheduler (thread table = ground truth), plus stateless preemption-bounded exploration of concurrent start/stop/clear/start_at",
+   text="(a) BFS to depth 6 (quick) / 7 (thorough) over {start, stop, clear, subscribe, publish, start an active object, post to it} on the real ActiveFabric and a real ActiveObject; live delivery threads are counted in the scheduler's own thread table (not through the handles the fabric keeps) and the invariant '<= 1 live thread per kind' is evaluated at every scheduling point; after every op: is_alive() == both live, stop() returned (a hang is a deadlock verdict) and left none live, the fabric runs after start, an object woken after stop() halts, publications made while running reach the subscribed queue and object exactly once. (b) start||start, start_at||start_at, stop||start, stop||stop, stop||start_at, clear||stop from two or three threads, every schedule with <= 2 deviations; afterwards stop(), start(), subscribe, publish must work.",
+   note="Publications made while the fabric does not run are unconstrained; an object due to halt whose fabric was restarted before it woke is unconstrained.", ref="6/C13"),
 }
 NOT_YET = "check not built yet in this round (planned, see DESIGN.md section 6)"
 
